@@ -746,6 +746,10 @@ func (f *transformationCallable) updateEntries(item reflect.Value) error {
 		return newEvalError(ErrIllegalUpdate, f.updates, nil)
 	}
 
+	// The map may be wrapped in an interface (e.g. when it
+	// is an element of an array).
+	updates = jtypes.Resolve(updates)
+
 	for _, key := range updates.MapKeys() {
 		item.SetMapIndex(key, updates.MapIndex(key))
 	}
